@@ -339,6 +339,9 @@ func init() {
 				srcs = append(srcs, rec.Src)
 			}
 		})
+		// annotations beyond the length at which the process text abbreviates them, sub-rolls, computed values holding rolls
+		srcs = append(srcs, "250d6", "300d4 + 1", "&lr = 250d6; lr + 1", "(3d6)d4", "200d10kh150", "func bigroll() { 300d6 }; bigroll() + 260d8", "`{280d6}`", "2 + 300d3 * 2", "180b1", "90a6 + 250d2")
+		r.Shuffle(len(srcs), func(i, j int) { srcs[i], srcs[j] = srcs[j], srcs[i] })
 		n := 0
 		for i := 0; i < len(srcs); {
 			// histories of 1-3 programs on one VM
